@@ -155,7 +155,16 @@ def rule_uri(model, rep):
     # reader: path unquoted once; query values come already unquoted from parse_qsl
     fp = model.func(T, "TOTP._from_parsed_uri")
     ft = ast.unparse(fp)
-    rep.check("label = unquote(label[1:])" in ft, R, site("TOTP._from_parsed_uri"), "label = unquote(label[1:])", "the path label is unquoted exactly once")
+    unq = [ast.unparse(c) for c in walk_no_nested(fp) if isinstance(c, ast.Call) and ast.unparse(c.func).split(".")[-1] in ("unquote", "unquote_plus", "unquote_to_bytes")]
+    rep.check("label = unquote(label[1:])" in ft and unq == ["unquote(label[1:])"], R, site("TOTP._from_parsed_uri"), "; ".join(unq) or "<no unquote>",
+              "the path label is unquoted exactly once (the writer quotes once; query values arrive decoded from parse_qsl)",
+              witness="a label containing a literal '%41' comes back as 'A' after from_uri(to_uri()); a label '%20' is refused as missing")
+    # the public entry point takes text or bytes: it converts before handing the string to urlparse()
+    fu = model.func(T, "TOTP.from_uri")
+    first = [st for st in fu.body if not (isinstance(st, ast.Expr) and isinstance(st.value, ast.Constant))][:1]
+    ok = bool(first) and isinstance(first[0], ast.Assign) and ast.unparse(first[0].targets[0]) == "uri" and ast.unparse(first[0].value).startswith("to_unicode(uri")
+    rep.check(ok, R, site("TOTP.from_uri") + " text or bytes", ast.unparse(first[0])[:80] if first else "<empty>", "from_uri() converts its argument to text first",
+              witness="TOTP.from_uri(otp.to_uri().encode()) is refused with 'wrong uri scheme' (urlparse of bytes yields bytes components) while from_source(bytes) accepts it")
     loop = [n for n in walk_no_nested(fp) if isinstance(n, ast.For) and qtext(n.iter).loose("parse_qsl(result.query")]
     # blank values must be kept, otherwise `secret=&secret=K` or `issuer=` next to an issuer prefix slip past the duplicate / conflict checks
     pq = [c for n in loop for c in ast.walk(n.iter) if isinstance(c, ast.Call) and ast.unparse(c.func) == "parse_qsl"]
